@@ -92,6 +92,7 @@ func cmdCheck(args []string) int {
 	noEvidence := fs.Bool("no-evidence", false, "do not write the evidence file")
 	verbose := fs.Bool("v", false, "verbose")
 	budgetFlag := fs.Int("budget", 0, "override the time budget (seconds)")
+	decFile := fs.String("decisions", "", "run only the path recorded in this cex.json (with --only <harness>)")
 	if len(args) < 1 {
 		fmt.Fprintln(os.Stderr, "usage: gosym check <ID> [flags]")
 		return 2
@@ -132,6 +133,20 @@ func cmdCheck(args []string) int {
 	}
 	if *trace {
 		cfg.workers = 1
+	}
+	if *decFile != "" {
+		b, err := os.ReadFile(*decFile)
+		if err != nil {
+			fmt.Fprintln(os.Stderr, err)
+			return 2
+		}
+		var cx struct {
+			Decisions []int64 `json:"decisions"`
+		}
+		json.Unmarshal(b, &cx)
+		cfg.initialPrefix = cx.Decisions
+		cfg.workers = 1
+		cfg.maxPaths = 1
 	}
 	parts := spec.Parts
 	if len(parts) == 0 {
